@@ -18,8 +18,11 @@ def gen_pop_case(rng, crnc_bias=0.5, metrics=METRICS):
     n_obj = rng.choice([1, 2, 2, 3, 3, 4, 5])
     n_ieq = rng.choice([0, 0, 1, 2]); n_eq = rng.choice([0, 0, 0, 1, 2])
     n = rng.choice([1, 2, 3, 5, 8, 12, 16, 24])
-    style = rng.choice(["grid", "grid", "cont", "dups", "chain", "onefront"])
+    style = rng.choice(["grid", "grid", "cont", "dups", "chain", "onefront", "narrow"])
     F = []
+    nb = [rng.choice([250.0, 1e3, 1e6]) for _ in range(n_obj)]; ns = [rng.choice([1e-3, 1e-4, 1e-6]) for _ in range(n_obj)]
+    nm = [rng.random() < 0.6 for _ in range(n_obj)]
+    if not any(nm): nm[0] = True
     for i in range(n):
         if style == "grid":
             F.append([float(rng.randint(0, 3)) for _ in range(n_obj)])
@@ -27,6 +30,9 @@ def gen_pop_case(rng, crnc_bias=0.5, metrics=METRICS):
             F.append([rng.random() for _ in range(n_obj)])
         elif style == "dups":
             F.append(list(F[rng.randrange(len(F))]) if F and rng.random() < 0.5 else [float(rng.randint(0, 2)) for _ in range(n_obj)])
+        elif style == "narrow":
+            # objectives whose spread is tiny relative to their magnitude (costs around 1000 differing by thousandths)
+            F.append([nb[j] + rng.randint(0, 4) * ns[j] if nm[j] else float(rng.randint(0, 3)) for j in range(n_obj)])
         elif style == "chain":
             F.append([float(i)] * n_obj)
         else:
@@ -98,9 +104,30 @@ class OracleRec:
         self._undo.append((NonDominatedSorting, "do", orig_nds))
         orig_cf = CrowdingDiversity.do
 
+        buf = {"log": [], "argpart": []}
+        orig_log2, orig_argpart = np.log2, np.argpartition
+
+        def log2(x, *a, **k):
+            with np.errstate(all="ignore"):
+                y = orig_log2(x, *a, **k)
+            buf["log"] += list(zip(np.asarray(x, dtype=float).ravel().tolist(), np.asarray(y, dtype=float).ravel().tolist()))
+            return y
+
+        def argpartition(a, kth, *args, **kw):
+            r = orig_argpart(a, kth, *args, **kw)
+            try:
+                ks = list(kth); buf["argpart"].append(np.asarray(r)[:, ks[0]:ks[-1] + 1].astype(int).tolist())
+            except Exception:
+                pass
+            return r
+        np.log2, np.argpartition = log2, argpartition
+        self._undo.append((np, "log2", orig_log2)); self._undo.append((np, "argpartition", orig_argpart))
+
         def cf_do(obj, F, n_remove=0, **k):
+            buf["log"] = []; buf["argpart"] = []
+            Fin = np.array(F, dtype=float).copy()
             d = orig_cf(obj, F, n_remove=n_remove, **k)
-            ev.append(("crowd", int(n_remove), [float(x) for x in np.asarray(d, dtype=float)], np.asarray(F, dtype=float).tolist()))
+            ev.append(("crowd", int(n_remove), [float(x) for x in np.asarray(d, dtype=float)], Fin.tolist(), list(buf["log"]), list(buf["argpart"])))
             return d
         CrowdingDiversity.do = cf_do
         self._undo.append((CrowdingDiversity, "do", orig_cf))
@@ -147,6 +174,8 @@ def run_survival(case):
     return {"surv": [ids.get(id(s), -1) for s in out], "CV": enc(CV), "feas": feas.tolist(), "C": enc(C) if C.size else [[] for _ in range(n)],
             "rank": [ind.get("rank") for ind in pop], "crowding": [None if ind.get("crowding") is None else float(ind.get("crowding")).hex() for ind in pop],
             "cv_rank": [ind.get("cv_rank") for ind in pop], "frame": bool(frame), "constr": bool(n_ieq + n_eq > 0),
+            "crowd_calls": [{"F": enc(np.array(e[3], dtype=float).reshape(len(e[3]), -1)), "n_remove": e[1], "d": [float(v).hex() for v in e[2]],
+                             "logs": [[float(a).hex(), float(b).hex()] for a, b in e[4]], "argpart": e[5]} for e in rec.events if e[0] == "crowd"],
             "events": [[e[0]] + [x if not isinstance(x, list) or not x or not isinstance(x[0], float) else [float(v).hex() for v in x] for x in e[1:3]] for e in rec.events]}
 
 
